@@ -60,9 +60,11 @@ def firstUnassigned (n : Nat) (st : Store) : Option Nat :=
 /-- `Var::mid` for integer variables -/
 def splitMid (d : Dom) : Int := d.dmin + (d.dmax - d.dmin) / 2
 
-/-- what the engine yields, in order: solutions (values of variables `0..n`) and stack pops -/
+/-- what the engine does, in order: yields a solution (values of variables `0..n`), pushes the
+current branch iterator on its stack (descends into a stalled child) or pops one -/
 inductive Ev where
   | sol (vals : List Int)
+  | push
   | pop
 deriving DecidableEq, Repr
 
@@ -103,7 +105,7 @@ def branchStep (n : Nat) (obj : Option IView) (pol : Policy) :
           best := match obj with | some o => some (o.minRaw st') | none => best }
       | some _ =>
         let r := explore n obj pol f psB st' best
-        { r with evs := r.evs ++ [.pop] }
+        { r with evs := [.push] ++ r.evs ++ [.pop] }
 /-- explore a stalled space: binary split on the first unassigned variable, left branch first -/
 def explore (n : Nat) (obj : Option IView) (pol : Policy) :
     Nat → List PK → Store → Option Int → Out
@@ -131,28 +133,161 @@ def search (n : Nat) (obj : Option IView) (pol : Policy) (fuel : Nat) (ps : List
     | some _ => { explore n obj pol fuel ps st' none with stalled := true }
 
 def Out.solutions (o : Out) : List (List Int) :=
-  o.evs.filterMap (fun e => match e with | .sol v => some v | .pop => none)
+  o.evs.filterMap (fun e => match e with | .sol v => some v | _ => none)
 
 /-! ### limits (C15)
 
 `Engine::next` increments `iteration_count` at the start of every call and after every stack pop,
 and tests the limits when `iteration_count % timeout_check_interval == 0`.  With the interval set to
-1 (verification hook H6) the `k`-th increment is the `k`-th check.  `fire k` says whether check
-number `k` (1-based) finds a limit exceeded; a fired check ends the iteration. -/
+1 (verification hook H6) every increment is followed by a check.  `fire count depth` says whether
+the check made when the counter shows `count` and the stack holds `depth` iterators finds a limit
+exceeded; a fired check ends the iteration (`next` returns `None` from then on is not needed: the
+callers stop at the first `None`). -/
 
-/-- the solutions delivered before the first fired check, and whether a check fired.
-A check happens at the start of the first `next()` call, after each delivered solution (start of
-the following call) and after each pop (the loop re-enters). -/
-def runLimitedGo (fire : Nat → Bool) : List Ev → Nat → List (List Int) → List (List Int) × Bool
-  | evs, count, acc =>
-    if fire (count + 1) then (acc.reverse, true)
-    else match evs with
-      | [] => (acc.reverse, false)
-      | .sol v :: rest => runLimitedGo fire rest (count + 1) (v :: acc)
-      | .pop :: rest => runLimitedGo fire rest (count + 1) acc
-termination_by evs => evs.length
+/-- `Engine::get_memory_usage_mb` -/
+def memUsageMb (depth count : Nat) : Nat := Nat.max ((512 + depth * 3 + 2 + (count / 10000) * 5) / 1024) 1
 
-def runLimited (evs : List Ev) (fire : Nat → Bool) : List (List Int) × Bool :=
-  runLimitedGo fire evs 0 []
+/-- state of a limited run -/
+structure LState where
+  /-- a check is due before the next event (start of a `next()` call or just after a pop) -/
+  pend : Bool := true
+  count : Nat := 0
+  depth : Nat := 0
+  /-- delivered solutions, most recent first -/
+  acc : List (List Int) := []
+  fired : Bool := false
+  /-- `solve` stops after the first delivered solution -/
+  stopped : Bool := false
+
+def LState.done (s : LState) : Bool := s.fired || s.stopped
+
+/-- the pending check, if any -/
+def LState.check (fire : Nat → Nat → Bool) (s : LState) : LState :=
+  if s.done then s
+  else if s.pend then
+    if fire (s.count + 1) s.depth then { s with fired := true, count := s.count + 1, pend := false }
+    else { s with count := s.count + 1, pend := false }
+  else s
+
+/-- one engine event under limits -/
+def stepEv (fire : Nat → Nat → Bool) (stopAtFirst : Bool) (s : LState) (e : Ev) : LState :=
+  let s1 := s.check fire
+  if s1.done then s1
+  else match e with
+    | .push => { s1 with depth := s1.depth + 1 }
+    | .sol v => { s1 with acc := v :: s1.acc, pend := true, stopped := stopAtFirst }
+    | .pop => { s1 with depth := s1.depth - 1, pend := true }
+
+/-- outcome of a limited run -/
+structure LimOut where
+  delivered : List (List Int)
+  fired : Bool
+  count : Nat
+  depth : Nat
+
+def LState.finish (fire : Nat → Nat → Bool) (s : LState) : LimOut :=
+  let s1 := s.check fire
+  ⟨s1.acc.reverse, s1.fired, s1.count, s1.depth⟩
+
+/-- the engine under limits, as a fold over the unlimited event trace -/
+def runLimited (evs : List Ev) (fire : Nat → Nat → Bool) (stopAtFirst : Bool := false) : LimOut :=
+  (evs.foldl (stepEv fire stopAtFirst) {}).finish fire
+
+mutual
+/-- `branchStep` with the limit state threaded through: stops as soon as a check fires (this is
+what the driver runs; `exploreL_eq` in Lemmas/Limits.lean shows it equals the fold above) -/
+def branchStepL (n : Nat) (obj : Option IView) (pol : Policy) (fire : Nat → Nat → Bool) (saf : Bool) :
+    Nat → List PK → Store → Option Int → PK → LState → LState × Option Int × Bool
+  | 0, _, _, best, _, s => (s, best, true)
+  | f+1, ps, st, best, bp, s =>
+    if s.done then (s, best, false) else
+    let mp := modeProps obj best
+    let psB := ps ++ [bp] ++ mp
+    let agenda := (if mp.isEmpty then [] else [ps.length + 1]) ++ [ps.length]
+    match propagate psB pol (f+1) agenda st with
+    | .fail => (s, best, false)
+    | .fuel => (s, best, true)
+    | .ok st' =>
+      match firstUnassigned n st' with
+      | none =>
+        (stepEv fire saf s (.sol (solOf n st')),
+         (match obj with | some o => some (o.minRaw st') | none => best), false)
+      | some _ =>
+        let s1 := stepEv fire saf s .push
+        let r := exploreL n obj pol fire saf f psB st' best s1
+        (stepEv fire saf r.1 .pop, r.2.1, r.2.2)
+def exploreL (n : Nat) (obj : Option IView) (pol : Policy) (fire : Nat → Nat → Bool) (saf : Bool) :
+    Nat → List PK → Store → Option Int → LState → LState × Option Int × Bool
+  | 0, _, _, best, s => (s, best, true)
+  | f+1, ps, st, best, s =>
+    if s.done then (s, best, false) else
+    match firstUnassigned n st with
+    | none => (s, best, false)
+    | some pivot =>
+      let mid := splitMid (st pivot)
+      let r1 := branchStepL n obj pol fire saf f ps st best (.leq (.var pivot) (.const mid)) s
+      let r2 := branchStepL n obj pol fire saf f ps st r1.2.1 (.leq (.next (.const mid)) (.var pivot)) r1.1
+      (r2.1, r2.2.1, r1.2.2 || r2.2.2)
+end
+
+/-- limited search from the root: `(limited outcome of the engine if the root is stalled,
+the root solution list otherwise, out of fuel)` -/
+def searchL (n : Nat) (obj : Option IView) (pol : Policy) (fire : Nat → Nat → Bool) (saf : Bool)
+    (fuel : Nat) (ps : List PK) (st : Store) : Option LimOut × List (List Int) × Bool :=
+  match propagate ps pol fuel (List.range ps.length) st with
+  | .fail => (none, [], false)
+  | .fuel => (none, [], true)
+  | .ok st' =>
+    match firstUnassigned n st' with
+    | none => (none, [solOf n st'], false)
+    | some _ =>
+      let r := exploreL n obj pol fire saf fuel ps st' none {}
+      (some (r.1.finish fire), [], r.2.2)
+
+/-- results of the solving entry points -/
+inductive SolveRes where
+  | ok (v : List Int)
+  | noSolution
+  | timeout
+  | memoryLimit
+deriving DecidableEq, Repr
+
+/-- which limit a fired check / the post-loop test reports: the timeout is tested first -/
+inductive LimKind where | time | memory
+deriving DecidableEq, Repr
+
+def limErr : LimKind → SolveRes
+  | .time => .timeout
+  | .memory => .memoryLimit
+
+/-- `Model::solve` on a stalled root: one `next()` call, then the post-loop limit tests.
+`post` is the outcome of the post-loop tests when no in-loop check fired (it may still report a
+limit, e.g. the clock ran out in between). -/
+def solveLimited (o : Out) (fire : Nat → Nat → Bool) (kind : LimKind) (post : Option LimKind) : SolveRes :=
+  if o.stalled then
+    let r := runLimited o.evs fire true
+    if r.fired then limErr kind
+    else match post with
+      | some k => limErr k
+      | none => match r.delivered.head? with
+        | some v => .ok v
+        | none => .noSolution
+  else match o.solutions.head? with
+    | some v => .ok v
+    | none => .noSolution
+
+/-- `Model::minimize`: iterate to exhaustion, post-loop limit tests, then the last assignment -/
+def minimizeLimited (o : Out) (fire : Nat → Nat → Bool) (kind : LimKind) (post : Option LimKind) : SolveRes :=
+  if o.stalled then
+    let r := runLimited o.evs fire false
+    if r.fired then limErr kind
+    else match post with
+      | some k => limErr k
+      | none => match r.delivered.getLast? with
+        | some v => .ok v
+        | none => .noSolution
+  else match o.solutions.getLast? with
+    | some v => .ok v
+    | none => .noSolution
 
 end Selen
